@@ -41,7 +41,7 @@ vf::Outcome run_case(const Case& c, const vf::Options& o)
    fl.bulk_limit = int(o.get("bulk", 640));
    World w(fl, Findings{p, &out});
    if (p == "C01" || p == "C02" || p == "C09" || p == "C14" || p == "C15" || p == "C06" || p == "C05") w.counters["nest_qualified"] = 1;
-   if (p == "C07") w.counters["small_universe"] = 1;
+   if (p == "C07" || p == "C04" || p == "C15") w.counters["small_universe"] = 1;   // few names and types: redeclaration and same-name entities are the norm
    const Profile& prof = profile(c.profile);
 
    if (p == "C05") {
